@@ -45,6 +45,8 @@ def run(repo, chk):
     dictpile_obligations(repo, chk, "R16.1")
     from .shared import annotation_cache_obligations
     annotation_cache_obligations(repo, chk, "R16.2")
+    from .shared import intercept_combination_obligations
+    intercept_combination_obligations(repo, chk, "R16.3")
 
     # ---------------- R16.1 / R16.4
     leaks, sanitised, eager = {}, 0, []
